@@ -5,7 +5,8 @@ from checks import arrays
 
 def consts(D, ext, depth, trivial, ops, slots=2):
     return {"DimD": D, "Slots": set(range(1, slots + 1)), "MaxExt": ext, "ABases": vlib.Sub("ABasesZero"), "MaxDepth": depth,
-            "OpSet": set(ops), "TrivialT": trivial, "AEmit": True}
+            "OpSet": set(ops), "TrivialT": trivial, "AEmit": True,
+            "AllocIds": set(), "POCCA": False, "POCMA": False, "POCS": False, "AlwaysEq": False}
 
 
 def run(tier):
